@@ -3,6 +3,7 @@ import FitProofs.Refine
 import FitProofs.Frame
 import FitProofs.Chain
 import FitModel.Gen.Profile
+import FitProofs.DecodeEncode
 /-!
   C10 — framing: a decode consumes exactly one file, however reads are chunked.
 
@@ -173,5 +174,77 @@ example :
     (decodeChainedSpec Fit.Gen.profile {} 5 0 [] {} (minFile ++ minFile ++ [14]) .eof).files.length = 2 ∧
     (decodeChainedSpec Fit.Gen.profile {} 5 0 [] {} (minFile ++ minFile ++ [14]) .eof).err.isSome = true := by
   decide +kernel
+
+
+/-- **`DecodeHeader`, `DecodeHeaderAndFileID` and `Decode` agree.** On a well-formed frame (any of the
+    three header layouts; a file_id definition and data record first; records that fit) that `Decode`
+    accepts, with anything after it: `DecodeHeader` succeeds and reports the frame's header;
+    `DecodeHeaderAndFileID` succeeds and returns that header together with the message of the first
+    data record — the file_id the record machine holds at that point; and the File `Decode` returns
+    carries the same header. (`Decode` reports that same file_id unless a later record of the stream
+    is a file_id message again, which replaces it — `File.add`; the run compares the two on streams
+    with one file_id record.) -/
+theorem header_fileid_agree (P : Profile) (o : Opts) (k : HdrKind) (g : Globals) (proto profile : Nat)
+    (d0 : DefMsg) (b0 : Bool) (fs dev : List Bytes) (rest : List Item) (tail : Bytes) (stop : Stop) (st1 st2 st' : DecSt)
+    (hp : proto < 256) (hp2 : proto / 16 ≤ protoMajorMax)
+    (hwf0 : DefnWF d0 b0) (hg : d0.global = mnFileId) (hkn : P.known mnFileId = true)
+    (hlen : (serialize (.defn d0 b0 :: .data d0.localT fs dev :: rest)).length < 4294967296)
+    (hfit : ItemsFitD P (List.replicate 16 none) (.defn d0 b0 :: .data d0.localT fs dev :: rest))
+    (h1 : stepItem P (recState0 P k g proto profile (serialize (.defn d0 b0 :: .data d0.localT fs dev :: rest)).length)
+      (.defn d0 b0) = .ok st1)
+    (h2 : stepItem P st1 (.data d0.localT fs dev) = .ok st2)
+    (hrun : runItems P (afterHeader k g proto profile (serialize (.defn d0 b0 :: .data d0.localT fs dev :: rest)).length).hdr g
+      (.defn d0 b0 :: .data d0.localT fs dev :: rest)
+      (afterHeader k g proto profile (serialize (.defn d0 b0 :: .data d0.localT fs dev :: rest)).length).crc = .ok st') :
+    let data := frameBytesK k proto profile (serialize (.defn d0 b0 :: .data d0.localT fs dev :: rest)) ++ tail
+    let H := (afterHeader k g proto profile (serialize (.defn d0 b0 :: .data d0.localT fs dev :: rest)).length).hdr
+    (decodeSpec P o .headerOnly g data stop).1.success ∧
+    (decodeSpec P o .headerOnly g data stop).1.st.hdr = H ∧
+    (decodeSpec P o .fileIdOnly g data stop).1.success ∧
+    (decodeSpec P o .fileIdOnly g data stop).1.st.file.map (·.hdr) = some H ∧
+    (decodeSpec P o .fileIdOnly g data stop).1.st.file.map (·.fileId) = st2.file.map (·.fileId) ∧
+    (decodeSpec P o .full g data stop).1.success ∧
+    (decodeSpec P o .full g data stop).1.st.file.map (·.hdr) = some H := by
+  intro data H
+  have key : ∀ (out : Outcome), (finalize o out).st.hdr = out.st.hdr ∧
+      (finalize o out).st.file.map (·.hdr) = out.st.file.map (·.hdr) ∧
+      (finalize o out).st.file.map (·.fileId) = out.st.file.map (·.fileId) := by
+    intro out
+    cases hf : out.st.file with
+    | none =>
+      unfold finalize
+      split
+      · simp [hf]
+      · simp [hf]
+    | some F =>
+      obtain ⟨F', hF', hs, _⟩ := finalize_content o out F hf
+      refine ⟨?_, ?_, ?_⟩
+      · unfold finalize; split <;> rfl
+      · rw [hF']; simp only [Option.map_some]; rw [hs.1]
+      · rw [hF']; simp only [Option.map_some]; rw [hs.2.2.1]
+  have e1 := decode_frame_header_only P o k g proto profile (serialize (.defn d0 b0 :: .data d0.localT fs dev :: rest)) tail stop hp hp2
+  have e2 := decode_frame_fileid_only P o k g proto profile d0 b0 fs dev rest tail stop st1 st2 hp hp2 hwf0 hg hkn hlen hfit h1 h2
+  have e3 := decode_frame_ok P o k g proto profile d0 b0 fs dev rest tail stop st' hp hp2 hwf0 hg hkn hlen hfit hrun
+  have hf2 : st2.fhdr = some H := by
+    rw [stepItem_fhdr P st1 st2 _ h2, stepItem_fhdr P _ st1 _ h1]
+    rfl
+  have hf' : st'.fhdr = some H := runItems_fhdr P _ g _ _ st' hrun
+  refine ⟨?_, ?_, ?_, ?_, ?_, ?_, ?_⟩
+  · show (decodeSpec P o .headerOnly g data stop).1.success
+    rw [e1]; exact finalize_okOut_success o _
+  · show (decodeSpec P o .headerOnly g data stop).1.st.hdr = H
+    rw [e1, (key _).1]; rfl
+  · show (decodeSpec P o .fileIdOnly g data stop).1.success
+    rw [e2]; exact finalize_okOut_success o _
+  · show (decodeSpec P o .fileIdOnly g data stop).1.st.file.map (·.hdr) = some H
+    rw [e2, (key _).2.1]; exact hf2
+  · show (decodeSpec P o .fileIdOnly g data stop).1.st.file.map (·.fileId) = st2.file.map (·.fileId)
+    rw [e2, (key _).2.2]; rfl
+  · show (decodeSpec P o .full g data stop).1.success
+    rw [e3]; exact finalize_okOut_success o _
+  · show (decodeSpec P o .full g data stop).1.st.file.map (·.hdr) = some H
+    rw [e3, (key _).2.1]
+    simp only [okOut, Option.map_map]
+    exact hf'
 
 end Fit.Props.C10
